@@ -848,10 +848,15 @@ func (c *control) dirInt(colon, at bool, params []any, base int) {
 	default:
 		neg = true // stops @ addition of a +
 		colon = false
+		// Not an integer so output as the Aesthetic directive does.
+		if ss, ok := ta.(slip.String); ok {
+			out = []byte(ss)
+			break
+		}
 		p := *slip.DefaultPrinter()
 		p.ScopedUpdate(c.scope)
-		p.Escape = true
-		p.Readably = true
+		p.Escape = false
+		p.Readably = false
 		p.Base = 10
 		out = p.Append(nil, ta, 0)
 	}
